@@ -97,6 +97,12 @@ def affine_sub(chk, rng, aff, rows, wid, tname, fixed=None, extra=None,
     # conversion, or the same refusal
     steps.append({"k": "ps", "e": ["c", ["a", U(u), "qty_cls"],
                                    [["un", "str", V("q")], U(v)]]})
+    # the other spellings of "what is q in v": the bare equivalent amount
+    # (None without a row, no exception), quantity / unit, and the quotient
+    # of the two quantities
+    steps.append({"k": "ea", "e": M(V("q"), "equiv_amount", U(v))})
+    steps.append({"k": "qdu", "e": OP("/", V("q"), U(v))})
+    steps.append({"k": "qdq", "e": OP("/", V("q"), V("o"))})
     info = dict(world=wid, u=u, v=v, t=t, x=str(x), y=str(y))
     if extra:
         info.update(extra)
@@ -126,6 +132,13 @@ def affine_sub(chk, rng, aff, rows, wid, tname, fixed=None, extra=None,
             if not is_exc(obs.get("ps"), "UnitConversionError"):
                 bad.append("no applicable row: parsing '%s %s' with unit %s "
                            "gives %s" % (xs, u, v, brief(obs.get("ps"))))
+            if obs.get("ea", {}).get("k") != "None":
+                bad.append("no applicable row: equiv_amount gives %s" %
+                           brief(obs.get("ea")))
+            for key in ("qdu", "qdq"):
+                if not is_exc(obs.get(key), "UnitConversionError"):
+                    bad.append("no applicable row: %s gives %s" %
+                               (key, brief(obs.get(key))))
             for op in OPS:
                 c = obs.get(op, {})
                 if op == "==":
@@ -152,6 +165,15 @@ def affine_sub(chk, rng, aff, rows, wid, tname, fixed=None, extra=None,
                     bad.append("amount held as %s" % r["at"])
                 if want == 0 and u != v:
                     chk.count("conversions whose result is zero")
+                ea, qdu = obs.get("ea", {}), obs.get("qdu", {})
+                if ea.get("k") != "N" or val(ea) != want or \
+                        ea.get("at") == "float":
+                    bad.append("equiv_amount gives %s, expected %s" %
+                               (brief(ea), want))
+                if u != v and (qdu.get("k") != "N" or val(qdu) != want):
+                    bad.append("quantity / unit gives %s, expected %s" %
+                               (brief(qdu), want))
+                chk.count("equivalent amounts and quotients by a unit")
                 ps = obs.get("ps", {})
                 if ps.get("k") != "Q" or ps["u"] != v or val(ps) != want:
                     bad.append("parsing '%s %s' with unit %s gives %s, the "
